@@ -46,6 +46,10 @@ class Prop:
     def shrink(self, failing):
         return failing
 
+    def extra(self, tier, cases, impl_out, model_out, hist):
+        """Oracle evaluated on the implementation's outputs alone; returns a list of failing dicts ({"case": ..., ...})."""
+        return []
+
     def exhaustive(self, tier):
         return False
 
@@ -452,3 +456,126 @@ class C12(Prop):
 
     def exhaustive(self, tier):
         return True
+
+
+# ---------------------------------------------------------------------------------------------
+# C10: inverse DCT accuracy (Annex A)
+
+def _unhex(h):
+    return [] if h == "-" else list(bytes.fromhex(h))
+
+
+@register
+class C10(Prop):
+    id = "C10"
+    thm_module = "H263V.Thm.C10"
+    native_ok = ("annexA_range_256_255", "annexA_range_5_5", "annexA_range_300_300", "annexA_range_neg_256_255",
+                 "annexA_range_neg_5_5", "annexA_range_neg_300_300", "dc_only_peak", "first_row_peak_sample", "first_col_peak_sample")
+    rule = ("T lines: the Annex A coefficient blocks (IEEE-1180 generator, exact forward transform in the Lean spec) of all six ranges "
+            "(quick: the first 700 blocks per range for seed 1; thorough: all 10,000 for seed 1 plus 2,000 for seeds 2, 3 and 1180), each on predictions 0 and 255 so that "
+            "the signed residual is observable, through the real idct_channel (hook) vs. the soft-float model, bit for bit; all 4095 DC-only "
+            "blocks and random first-row / first-column blocks over -2048..2047 on predictions 0, 128, 255; the all-zero block.  The five Annex A "
+            "statistics are recomputed from the implementation's outputs against the exact reference transform (TR lines).  Non-trivial: "
+            "blocks with a non-zero residual; distinct by text.")
+    trusted = COMMON_TRUSTED + ["Lean.ofReduceBool / Lean.trustCompiler (native_decide) for the nine statistical theorems named in coverage.axioms",
+                                "Spec/AnnexA.lean: cosines as 40-digit decimals, exact integer arithmetic (stands in for the procedure's double precision)"]
+    assumptions = ["rustc compiles the f32 arithmetic of idct.rs to IEEE-754 binary32 round-to-nearest-even without fused multiply-add"]
+
+    def cases(self, tier, rng):
+        import core
+        out = []
+        self._ranges = []
+        plan = [(k, 1, 700 if tier == "quick" else 10000) for k in range(6)]
+        if tier == "thorough":
+            plan += [(k, s, 2000) for k in range(6) for s in (2, 3, 1180)]
+        for (k, seed, n) in plan:
+            ls = core.gen_lines(f"annexa{k}", seed, n)
+            self._ranges.append((k, seed, len(out), len(ls)))
+            out += ls
+        out.append("T 1 8 64 0 F:" + ",".join(["0"] * 64))
+        out.append("T 1 8 64 77 Z")
+        for v in range(-2048, 2048):
+            if v == 0:
+                continue
+            for pred in ((0, 255) if tier == "quick" and v % 5 else (0, 128, 255)):
+                out.append(f"T 1 8 64 {pred} D:{v}")
+        for _ in range(3000 if tier == "quick" else 40000):
+            shape = rng.choice("HV")
+            kind = rng.randint(0, 2)
+            if kind == 0:
+                vals = [rng.randint(-2048, 2047) for _ in range(8)]
+            elif kind == 1:
+                vals = [rng.choice([0, 0, 0, rng.randint(-300, 300)]) for _ in range(8)]
+            else:
+                vals = [rng.choice([-2048, 2047, 0, 1, -1]) for _ in range(8)]
+            out.append(f"T 1 8 64 {rng.choice([0, 128, 255])} {shape}:{','.join(map(str, vals))}")
+        # cropped / multi-block planes (shapes mixed, sizes not multiples of 8)
+        for _ in range(300 if tier == "quick" else 3000):
+            bpl = rng.randint(1, 3)
+            rows = rng.randint(1, 2)
+            spl = rng.randint(max(1, bpl * 8 - 7), bpl * 8)
+            h = rng.randint(max(1, rows * 8 - 7), rows * 8)
+            blocks = []
+            for _b in range(bpl * rows):
+                t = rng.choice("ZDHVF")
+                if t == "Z":
+                    blocks.append("Z")
+                elif t == "D":
+                    blocks.append(f"D:{rng.randint(-2048, 2047) or 8}")
+                elif t in "HV":
+                    blocks.append(f"{t}:" + ",".join(str(rng.randint(-400, 400)) for _ in range(8)))
+                else:
+                    blocks.append("F:" + ",".join(str(rng.choice([0, 0, rng.randint(-300, 300)])) for _ in range(64)))
+            out.append(f"T {bpl} {spl} {spl * h} {rng.choice([0, 128, 255])} " + " ".join(blocks))
+        return out
+
+    def nontrivial(self, case, model_out):
+        t = case.split(" ")
+        return model_out != "T " + ("%02x" % int(t[4])) * int(t[3])
+
+    def tally(self, hist, case, impl, model):
+        t = case.split(" ")
+        k = "T " + (t[5][0] if len(t) == 6 else "multi")
+        hist[k] = hist.get(k, 0) + 1
+
+    def extra(self, tier, cases, impl_out, model_out, hist):
+        """Annex A statistics of the *implementation* over each generated range, against the exact reference transform."""
+        import core
+        fails = []
+        for (k, seed, start, n) in self._ranges:
+            tr = core.run_cases(core.DRIVER, ["TR" + cases[start + 2 * i][1:] for i in range(n // 2)])
+            cnt = n // 2
+            sum_e = [0] * 64
+            sum_q = [0] * 64
+            peak = 0
+            worst = None
+            for i in range(cnt):
+                o0 = impl_out[start + 2 * i]
+                o255 = impl_out[start + 2 * i + 1]
+                if not (o0.startswith("T ") and o255.startswith("T ")) or "PANIC" in o0 + o255:
+                    fails.append({"case": cases[start + 2 * i], "impl": o0, "why": "no output"})
+                    break
+                a = _unhex(o0[2:])
+                b = _unhex(o255[2:])
+                ref = [int(x) for x in tr[i][3:].split(",")]
+                for p in range(64):
+                    # the u8 output plane shows the residual only within -255..255 (prediction 0 / 255): both the
+                    # observed and the reference value are clipped to that range (the model-level theorems use -256..255)
+                    res = a[p] if a[p] > 0 else b[p] - 255
+                    e = res - max(-255, ref[p])
+                    sum_e[p] += e
+                    sum_q[p] += e * e
+                    if abs(e) > peak:
+                        peak = abs(e)
+                        worst = cases[start + 2 * i]
+            ok = (peak <= 1 and all(q * 100 <= 6 * cnt for q in sum_q) and sum(sum_q) * 100 <= 2 * 64 * cnt
+                  and all(abs(e) * 1000 <= 15 * cnt for e in sum_e) and abs(sum(sum_e)) * 10000 <= 15 * 64 * cnt)
+            hist[f"annexA range{k} seed{seed}"] = {"blocks": cnt, "peak": peak, "max_pos_mse": max(sum_q) / cnt,
+                                                 "overall_mse": sum(sum_q) / (64 * cnt),
+                                                 "max_pos_mean_err": max(abs(e) for e in sum_e) / cnt,
+                                                 "overall_mean_err": sum(sum_e) / (64 * cnt)}
+            if not ok:
+                fails.append({"case": worst or cases[start], "why": f"Annex A criteria violated by the implementation on range index {k}, seed {seed}",
+                              "stats": hist[f"annexA range{k} seed{seed}"],
+                              "replay_lines": f"driver GEN annexa{k} {seed} {cnt}"})
+        return fails
